@@ -43,8 +43,8 @@ C19_NoBadDataRemoved == (Req /\ C.bad.ran) => C.bad.removed = 0
 C19_NoBadDataChi2 == (Req /\ C.bad.ran) => C.bad.chi2 # 1
 \* where the largest normalised residual test is defined (no critical measurement) it must pass
 C19_RnTestPasses == (Req /\ C.bad.ran /\ NoCritical(M)) => C.bad.rn = 1
-\* feature classes of a set, used for the structural keys of findings: has a critical measurement / chi^2 test has no
-\* degree of freedom (both computed by the spec; carried in C.cls by the harness from the model's out record)
+\* (structural keys of findings use two classes computed by the model, out.nocritical and out.df: the set has a critical
+\* measurement / the chi^2 test has no degree of freedom)
 \* Other algorithms on the same table (thorough tier).  An exact set that is observable still has further exact roots
 \* (e.g. the low-voltage root behind a flow pair measured at the far end of a branch: it fits every measurement); which
 \* root an iteration reaches from the flat start is a property of the iteration, not of the set.  "irwls" (estimator
@@ -55,7 +55,7 @@ GaussNewton == {"irwls", "wls_with_zero_constraint"}
 AltOK(a) == (Req /\ a.acc /\ a.ok) => SameBus(a, C.pf)
 C19_AltAlgorithms == \A k \in DOMAIN C.alts : C.alts[k].alg \in GaussNewton => AltOK(C.alts[k])
 
-\* ---- conformance of the modelled aggregation (EstimationConf.cfg; reported as divergence, never as violation) --------
+\* ---- conformance of the modelled aggregation (EstimationConfT3/T4.cfg; reported as divergence, never as violation) --------
 C19_Conf_TableCreated == Bind(Table(S), LAMBDA tab : C.rows = Rows(tab))
 C19_Conf_ZLayout == C.z.avail => Bind(Table(S), LAMBDA tab : C.z.idx = ZIdx(tab))
 C19_Conf_ZWeights == C.z.avail => Bind(Table(S), LAMBDA tab : C.z.w4 = ZW4(tab))
